@@ -78,8 +78,9 @@ type ELSim struct {
 	jobSeq    uint64
 
 	// script
-	Canonical   bool                     // timestamp/random are functions of the parent
-	GasAmount   *big.Int                 // gas revenue reported in every built payload
+	HiccupOnce  time.Duration             // delay the next payload-building forkchoiceUpdated once (no fault)
+	Canonical   bool                      // timestamp/random are functions of the parent
+	GasAmount   *big.Int                  // gas revenue reported in every built payload
 	NextLocking goattypes.LockingRequests // requests (besides Gas) for the next built payloads
 	NextBridge  goattypes.BridgeRequests
 	NextRelayer goattypes.RelayerRequests
@@ -142,6 +143,13 @@ func (el *ELSim) SetFaults(f map[int]FaultKind) {
 	if el.Faults == nil {
 		el.Faults = map[int]FaultKind{}
 	}
+}
+
+// HasFaults reports whether any engine fault is scripted.
+func (el *ELSim) HasFaults() bool {
+	el.mu.Lock()
+	defer el.mu.Unlock()
+	return len(el.Faults) > 0
 }
 
 func (el *ELSim) Calls() []Call {
@@ -242,6 +250,13 @@ func (api *engineAPI) GetChainConfig() *params.ChainConfig {
 func (api *engineAPI) ForkchoiceUpdatedV3(update engine.ForkchoiceStateV1, attrs *engine.PayloadAttributes) (engine.ForkChoiceResponse, error) {
 	el := api.el
 	el.mu.Lock()
+	if d := el.HiccupOnce; d > 0 && attrs != nil {
+		// a fault-free engine that is merely slow once (machine load); see Node.Prepare
+		el.HiccupOnce = 0
+		el.mu.Unlock()
+		time.Sleep(d)
+		el.mu.Lock()
+	}
 	f := el.fault()
 	call := Call{Method: "forkchoiceUpdatedV3", Head: update.HeadBlockHash, Safe: update.SafeBlockHash,
 		Finalized: update.FinalizedBlockHash, HasAttrs: attrs != nil}
